@@ -11,6 +11,7 @@ cd "$here"
 : > "$out"
 for d in seeded/*/; do
   name=$(basename $d)
+  if [ -n "$ROWS" ] && ! [[ $name =~ $ROWS ]]; then continue; fi   # ROWS: regular expression selecting the changes (rows) to run
   git -C "$repo" checkout -q -- . && git -C "$repo" apply "$here/$d/patch.diff" || { echo "$name APPLY-FAILED" >> "$out"; continue; }
   own=${name%%-*}
   for c in $checks; do
